@@ -23,6 +23,8 @@ BASE_D = ["INT", "BOOL", "DOUBLE", "CLOCK", "DIFF", "INVARIANT", "INVARIANT_WR",
           "LOCATION_EXPR", "PROBABILITY", "DOUBLE_INV_GUARD", "FRACTION", "LIST", "OTHER"]
 
 GATES = {"guard": "is_guard", "invariant": "isInvariantWR"}
+# the atomic clock comparisons of C10's quantifier: clock bound, clock difference bound, clock against clock
+ATOM_PAIRS = {("CLOCK", "CLOCK"), ("CLOCK", "INT"), ("INT", "CLOCK"), ("DIFF", "INT"), ("INT", "DIFF")}
 BINARY = ["AND", "OR", "XOR", "LT", "LE", "GE", "GT", "EQ", "NEQ"]
 
 
@@ -88,6 +90,7 @@ def run(chk, F):
     def passes(r):
         return [g for g, s in gate_set.items() if r in s]
 
+    laundered = []
     done = set()
     while True:
         todo = [k for k in D if k not in done]
@@ -129,6 +132,18 @@ def run(chk, F):
                             if ok and r in CONVEX:
                                 ok = (a in CLOCKISH or b in CLOCKISH or "RATE" in (a, b))
                                 why = "a clock-constraint result needs a clock/difference/rate operand"
+                            if ok and r in CLOCK_FREE and ({a, b} & CLOCKISH):
+                                # the result may go under !, ||, xor, exists: a comparison that involves a clock
+                                # must not be typed as a plain boolean.  Armed for the atoms C10 quantifies over
+                                # (clock bound, clock difference bound, clock vs clock); the remaining rows
+                                # (difference vs difference, clock vs double/bool: the SMC reading of clocks as
+                                # numbers) are outside the property's vocabulary and are printed as notes
+                                if (a, b) in ATOM_PAIRS:
+                                    ok = False
+                                    why = "an atomic clock comparison is typed as a clock-free boolean, which " \
+                                          "every non-convex connective (!, ||, xor, exists) accepts"
+                                elif g == "guard":
+                                    laundered.append("%s(%s,%s)" % (kind, a, b))
                             if ok and r in CONVEX and kind == "NEQ":
                                 ok = False
                                 why = "x != c is not convex"
@@ -171,6 +186,9 @@ def run(chk, F):
                                "%s over a body of class %s is typed %s and passes the %s gate" % (q, a, oc[1], g),
                                "src/typechecker.cpp:%s" % T.fn["line"])
         done.update(cur)
+    if laundered:
+        chk.note("comparisons involving a clock that are typed as plain booleans but lie outside the atoms C10 "
+                 "quantifies over (clocks read as numbers, SMC): %s" % ", ".join(sorted(set(laundered))))
     chk.analysed["R-CONVEX"] = {"domain": D, "rows_evaluated": nrows, "gate_sets": {g: sorted(s) for g, s in
                                                                                  gate_set.items()}}
 
